@@ -470,6 +470,8 @@ def assemble(template: str, defines: set | None = None) -> Assembled:
     log: list[str] = []
     i = 0
     canary = 'CANARY' in defines
+    mod_stack = []   # (name, depth at which it closes)
+    depth = 0
     while i < len(lines):
         line, org = lines[i]
         s = line.strip()
@@ -511,6 +513,7 @@ def assemble(template: str, defines: set | None = None) -> Assembled:
                 sections[cur] += l2 + '\n'
             spec = _parse_kv(spec_s)
             text, orgs, info = build_item(spec, sections, substs, defines, log)
+            info.flags['mod_path'] = '::'.join(m for m, _ in mod_stack)
             if 'expect' in spec:
                 got = ' '.join(text.split())
                 if got != ' '.join(spec['expect'].split()):
@@ -533,8 +536,19 @@ def assemble(template: str, defines: set | None = None) -> Assembled:
                 out_lines.extend(tl2); origins.extend(orgs2[:len(tl2)] + [orgs2[-1]] * (len(tl2) - len(orgs2)))
                 info2.out_line, info2.out_end_line = s2l, len(out_lines)
                 info.twin_name = info2.emitted_name
+                info2.flags['mod_path'] = info.flags['mod_path']
+                info2.flags['canary_self'] = False
                 items.append(info2)
             continue
+        # module nesting of template text (items are brace-balanced and do not count)
+        code = line.split('//')[0]
+        mm = re.match(r'\s*(?:pub(?:\([a-z]+\))?\s+)?mod\s+([A-Za-z_0-9]+)\s*\{', code)
+        opens, closes = code.count('{'), code.count('}')
+        if mm:
+            mod_stack.append((mm.group(1), depth))
+        depth += opens - closes
+        while mod_stack and depth <= mod_stack[-1][1]:
+            mod_stack.pop()
         out_lines.append(line)
         origins.append(('T:' + os.path.relpath(org[0], '/verif'), org[1]))
         i += 1
